@@ -18,12 +18,12 @@ in_repo = "--in-repo" in sys.argv
 which = args[0] if len(args) > 0 else "all"
 tier = args[1] if len(args) > 1 else "quick"
 only = args[2].split(",") if len(args) > 2 else None
-TREE = "/repo" if in_repo else "/tmp/nv-mutrepo"
+TREE = "/repo" if in_repo else os.environ.get("MUT_TREE", "/tmp/nv-mutrepo")
 env = dict(os.environ)
 if not in_repo:
     subprocess.run(["git", "-C", "/repo", "worktree", "remove", "--force", TREE], capture_output=True)
     subprocess.run(["git", "-C", "/repo", "worktree", "add", "--detach", TREE, "HEAD", "-q"], check=True)
-    env.update(NV_REPO=TREE, NV_OUT="/tmp/nv-mutout")
+    env.update(NV_REPO=TREE, NV_OUT=os.environ.get("MUT_OUT", "/tmp/nv-mutout"))
 items = []
 if which in ("reverts", "all"):
     for ln in open(os.path.join(ROOT, "known_findings.jsonl")):
@@ -37,7 +37,7 @@ if which in ("seeded", "all"):
         m = json.load(open(meta))
         items.append({"id": os.path.basename(os.path.dirname(meta)), "patch": os.path.join(os.path.dirname(meta), "patch.diff"), "props": m.get("run_checks") or [m["property"]],
                       "what": m.get("needs", "")})
-res_path = os.path.join(ROOT, "seeded", "RESULTS.json")
+res_path = os.environ.get("MUT_RESULTS", os.path.join(ROOT, "seeded", "RESULTS.json"))      # (a second instance on another subset writes its own file)
 results = json.load(open(res_path)) if os.path.exists(res_path) else {}
 assert subprocess.run(["git", "-C", TREE, "status", "--porcelain", "--", "src"], capture_output=True, text=True).stdout.strip() == "", TREE + " has local changes"
 if only:
@@ -59,7 +59,7 @@ for it in items:
     finally:
         subprocess.run(["git", "-C", TREE, "checkout", "--", "."], check=True)
     json.dump(results, open(res_path, "w"), indent=1)
-with open(os.path.join(ROOT, "seeded", "RESULTS.md"), "w") as fh:
+with open(os.path.join(ROOT, "seeded", "RESULTS.md") if "MUT_RESULTS" not in os.environ else res_path + ".md", "w") as fh:
     fh.write("| seeded change | breaks | checks run (exit) | caught |\n|---|---|---|---|\n")
     for k, v in results.items():
         if "checks" in v:
@@ -68,5 +68,5 @@ with open(os.path.join(ROOT, "seeded", "RESULTS.md"), "w") as fh:
             fh.write("| %s | %s | - | - |\n" % (k, v.get("error", "")))
 if not in_repo:
     subprocess.run(["git", "-C", "/repo", "worktree", "remove", "--force", TREE], capture_output=True)
-    subprocess.run(["rm", "-rf", "/tmp/nv-mutout"])
+    subprocess.run(["rm", "-rf", env["NV_OUT"]])
 print("done")
